@@ -344,7 +344,7 @@ func init() {
 	core.Register("c12.load", &core.CheckDef{
 		Real:     realLoad,
 		DriverOp: "c12.specs",
-		Timeout:  20 * time.Second,
+		Timeout:  90 * time.Second,
 		DriverArgs: func(args, real json.RawMessage) any {
 			var r loadReal
 			json.Unmarshal(real, &r)
